@@ -1,6 +1,6 @@
 (* C05: trader actions never leave the trader under-margined.  Statements only. *)
 From MP.Model Require Import Prelude U128 SInt Feed Vamm VammOps Token World Engine Runtime.
-From MP.Proofs Require Import Tactics EngineGuards EngineArith CloseFacts MoreFacts OpenRatioFacts MarginTxFacts.
+From MP.Proofs Require Import Tactics EngineGuards EngineArith CloseFacts MoreFacts OpenRatioFacts MarginTxFacts LimitTxFacts.
 From MP.Model Require Import Scenario.
 
 (* leverage below 1 or above 1/initial-margin-ratio is rejected *)
@@ -110,3 +110,19 @@ Definition c05_margin_example : bool :=
   end.
 Example C05_margin_nonvacuous : c05_margin_example = true.
 Proof. vm_compute. reflexivity. Qed.
+
+(* the leverage clause at transaction level: an OpenPosition transaction succeeds only with
+   1 <= leverage <= 1 / initial margin ratio; outside those bounds the step fails and the world is unchanged *)
+Theorem C05_open_position_tx_leverage : forall f w t v s m l lim funds w',
+  exec_op f w (OEngine t (EOpenPosition v s m l lim) funds) = Ok w' ->
+  0 <= e_init (ec (w_eng w)) -> 0 < e_dec (ec (w_eng w)) ->
+  e_dec (ec (w_eng w)) <= l /\ l * e_init (ec (w_eng w)) <= e_dec (ec (w_eng w)) * e_dec (ec (w_eng w)).
+Proof. exact open_position_tx_leverage. Qed.
+Print Assumptions C05_open_position_tx_leverage.
+
+Theorem C05_open_position_tx_leverage_refused : forall f w t v s m l lim funds,
+  0 <= e_init (ec (w_eng w)) -> 0 < e_dec (ec (w_eng w)) ->
+  l < e_dec (ec (w_eng w)) \/ e_dec (ec (w_eng w)) * e_dec (ec (w_eng w)) < l * e_init (ec (w_eng w)) ->
+  step_f f w (OEngine t (EOpenPosition v s m l lim) funds) = (w, false).
+Proof. exact open_position_tx_leverage_refused. Qed.
+Print Assumptions C05_open_position_tx_leverage_refused.
